@@ -7,6 +7,7 @@ import (
 	"sync"
 
 	"github.com/risor-io/risor/errz"
+	"github.com/risor-io/risor/internal/verifhook"
 	"github.com/risor-io/risor/op"
 )
 
@@ -74,6 +75,9 @@ func (d *DynamicAttr) Cost() int {
 func (d *DynamicAttr) ResolveAttr(ctx context.Context, name string) (Object, error) {
 	d.mutex.Lock()
 	defer d.mutex.Unlock()
+	// (simulator: no scheduling points while the mutex is held)
+	verifhook.Yield("critical.enter")
+	defer verifhook.Yield("critical.exit")
 	// A resolved value belongs to the evaluation it was resolved for: the
 	// context carries that evaluation's OS and its lifetime. The attribute
 	// object itself lives in a module that may be shared by many evaluations,
